@@ -228,6 +228,10 @@ theorem C11_invocations_run_outside_the_table_lock :
     Skeleton.current.clInvokeOutsideLock = true ∧ Skeleton.current.clLockIsMutex = true ∧
     Skeleton.current.clLookupUnderLock = true := by decide
 
+/-- The wrapper's result is what the caller's function returned. `utils.Call` hands back exactly what the function returned — `out = fn.Call(in)` is the only write to its result list (checked against the regenerated skeleton; `utils/call.go` is not among this property's anchors, yet every handler's and every closure's results pass through it). -/
+theorem C11_results_pass_through_utils_call :
+    Skeleton.current.ucResultsUntouched = true := by decide
+
 end Panrpc.Cv
 
 #print axioms Panrpc.Cv.C11_invocations_run_outside_the_table_lock
@@ -248,3 +252,4 @@ end Panrpc.Cv
 #print axioms Panrpc.Cv.C11_convert_total
 #print axioms Panrpc.Cv.C11_wrapper_total
 #print axioms Panrpc.Cv.C11_proxy_matches_source
+#print axioms Panrpc.Cv.C11_results_pass_through_utils_call
